@@ -158,7 +158,22 @@ func runLBAdmin(x *X) {
 		switch in.Op {
 		case "add":
 			method, path = "POST", "/v1/backends/add"
-			body, _ = json.Marshal(map[string]any{"name": in.Name, "address": in.Addr, "weight": in.Weight})
+			// a caller that leaves a field out sends no key at all (every other call), not a zero: either
+			// way the call describes one backend and nothing of an earlier call
+			fields := map[string]any{"name": in.Name, "address": in.Addr, "weight": in.Weight}
+			if x.Seq()%2 == 0 {
+				if in.Name == "" {
+					delete(fields, "name")
+				}
+				if in.Addr == "" {
+					delete(fields, "address")
+				}
+				if in.Weight == 0 {
+					delete(fields, "weight")
+					x.Probe("admin-add-omits-weight")
+				}
+			}
+			body, _ = json.Marshal(fields)
 		case "remove":
 			method, path = "POST", "/v1/backends/remove"
 			body, _ = json.Marshal(map[string]any{"name": in.Name})
